@@ -116,7 +116,9 @@ class World:
             no = getattr(ag, "null_observation", None)
             if nulls is not None and nulls[i] is not None and script["learning"][i]:
                 declared.append([list(nulls[i])])
-                truthy.append(bool(no))
+                # whether the wrapper treats the declared value as a null observation: since the repair of
+                # S1 (c0b1a12) every declared value other than the empty dict counts, whatever its truth value
+                truthy.append(not (type(no) is dict and len(no) == 0))
             else:
                 declared.append([])
                 truthy.append(False)
